@@ -726,13 +726,23 @@ for (int n = 0; n < count; n++)
     {
       define++;
 
-      if (ptr + strlen(params + params_ptr[((int)*define) - 1]) >= PARAM_STACK_LEN)
+      // The byte after the marker is the parameter number (1..count).
+      const int index = ((int)(uint8_t)*define) - 1;
+
+      if (index < 0 || index >= count)
+      {
+        print_error(asm_context, "Bad parameter reference in macro");
+        asm_context->error = 1;
+        return nullptr;
+      }
+
+      if (ptr + strlen(params + params_ptr[index]) >= PARAM_STACK_LEN)
       {
         print_error_internal(nullptr, __FILE__, __LINE__);
         exit(1);
       }
 
-      strcpy(asm_context->def_param_stack_data + ptr, params + params_ptr[((int)*define) - 1]);
+      strcpy(asm_context->def_param_stack_data + ptr, params + params_ptr[index]);
 
       while (*(asm_context->def_param_stack_data + ptr) != 0) { ptr++; }
     }
